@@ -153,8 +153,10 @@ CHECKS = {
               "marker: for every well-formed diagram with final-release cuts other than TRUE the clauses of to_dnf evaluate like the marker, recompiling them with the "
               "proved operations gives back the identical diagram (density proviso of C03), and every diagram the parser builds is in scope. The clause simplifier alone is "
               "shown unsound on clause lists nobody produces (versions compared modulo trailing zeros vs segment-count dependent operators; witnesses by computation) and "
-              "sound on what collect_dnf emits. The text printer is modelled separately (Text/MarkerDisplay*.v) with PEP 440 version text as an oracle. Tie: the extracted "
-              "to_dnf vs the crate's to_dnf() clause for clause on every marker of the run; the crate's clauses recompiled; Display / try_to_string / contents() / serde text "
+              "sound on what collect_dnf emits. The text printer is modelled too and the printed text of every non-constant diagram is proved to parse back, without warnings, to the "
+              "identical diagram, given that each printed comparison re-parses to itself (proved for string/in/contains/extra comparisons; PEP 440 version text is an oracle) - "
+              "FALSE, deprecated spellings, === and arbitrary extras are the carve-outs. Tie: the extracted to_dnf vs the crate's to_dnf() clause for clause and the extracted "
+              "show_marker vs the crate's Display text character for character on every marker of the run; the crate's clauses recompiled; Display / try_to_string / contents() / serde text "
               "re-parsed to an == marker (FALSE and deprecated spellings: equivalent on final-release environments)."),
         design_ref='DESIGN.md section 7 / C05',
         technique='Coq proof (path decomposition, range-to-specifier lemmas, invariant of the simplifier loops) + differential correspondence of to_dnf + executed text round trips'),
